@@ -34,3 +34,26 @@ Theorem C04_stop_ends_every_tracked_tunnel : forall s, rs_state s <> Closed ->
   rs_open (rs_step s OStop) = [] /\ forall t, In t (rs_open s) -> In t (rs_told (rs_step s OStop)).
 Proof. exact stop_ends_every_tracked_tunnel. Qed.
 Print Assumptions C04_stop_ends_every_tracked_tunnel.
+
+(* ---- one RPC end to end (Rpc.v) when the tunnel ends at the calling end (Close, the tunnel's context,
+   a failure of the carrier), in every interleaving ---- *)
+From GT Require Import Rpc RpcInv RpcProofs RpcSystem RpcProgress RpcEnd.
+(* RPCs started on that tunnel afterwards fail immediately instead of hanging: nothing is sent, no stream *)
+Theorem C04_rpc_started_after_the_end_fails_at_once : forall strict ls s,
+  rrun strict r_init ls = Some s -> k_chend (r_k s) = true -> k_new (r_k s) = false ->
+  exists s', rstep strict s (LK CNew) = Some s' /\ k_new (r_k s') = false /\ h_c s' = h_c s /\ q_c s' = q_c s.
+Proof. exact rpc_started_after_the_end_fails_at_once. Qed.
+Print Assumptions C04_rpc_started_after_the_end_fails_at_once.
+(* every in-flight call is released: its table entry is gone, its context cancelled, and its terminal result is
+   reached by steps of the client's own goroutines *)
+Theorem C04_rpc_in_flight_call_is_released : forall strict ls s,
+  rrun strict r_init ls = Some s -> k_chend (r_k s) = true -> k_new (r_k s) = true -> k_sig (r_k s) = false ->
+  k_tab (r_k s) = false /\ exists l, In l [CWatch; CRemove; CPublish] /\ exists s', rstep strict s (LK l) = Some s'.
+Proof. exact rpc_in_flight_call_is_released. Qed.
+Print Assumptions C04_rpc_in_flight_call_is_released.
+(* ... and that result is non-OK: an unfinished call can no longer be finished by the peer's close *)
+Theorem C04_rpc_unfinished_call_cannot_succeed_after_the_end : forall strict s l s',
+  kinv (r_k s) = true -> k_chend (r_k s) = true -> k_done (r_k s) = None -> rstep strict s l = Some s' ->
+  k_done (r_k s') = None \/ k_done (r_k s') = Some ByCtx \/ k_done (r_k s') = Some ByReader.
+Proof. exact rpc_unfinished_call_cannot_succeed_after_the_end. Qed.
+Print Assumptions C04_rpc_unfinished_call_cannot_succeed_after_the_end.
